@@ -4,6 +4,7 @@ Strtod/ScanLemmas.lean, Strtod/Extract.lean).
 -/
 import JanetModel.Strtod.ScanLemmas
 import JanetModel.Strtod.Extract
+import JanetModel.Strtod.Ldexp
 
 namespace JanetModel.Props.C13
 open JanetModel.Strtod JanetModel.Gen.Strtod
@@ -140,6 +141,14 @@ theorem exact_when_representable (t N D : Nat) (h : FaithfulN t N D) (hrep : N %
 theorem within_one_ulp (t N D : Nat) (hD : 0 < D) (h : FaithfulN t N D) : t * D < N + D ∧ N < t * D + D :=
   h.within hD
 
+/-- ★ the last step `ldexp((double) t, e2)` adds no error in the normal range: for the normalised significands produced
+    above (2^52 ≤ t < 2^53) and −1074 ≤ e2 ≤ 971 the returned double is exactly `t·2^e2`.  (Subnormal results and
+    overflow go through the exact round-to-nearest-even of `ldexpBits`; that second rounding is covered by
+    correspondence and the oracle only — see `print17_roundtrip` note in notes/C13.md.) -/
+theorem ldexp_exact_normal (t : Nat) (e : Int) (hlo : 2 ^ 52 ≤ t) (hhi : t < 2 ^ 53) (he1 : -1074 ≤ e) (he2 : e ≤ 971) :
+    decodeBits (ldexpBits t e) = (t, e) :=
+  JanetModel.Strtod.ldexp_exact_normal t e hlo hhi he1 he2
+
 /-! ### the size estimate used by the short-circuits of `convert` -/
 
 /-- ★ the mantissa part of `exp2_approx` (`n * approxPerDigit + 16`, multiplier read from the source) is within
@@ -172,6 +181,17 @@ theorem mant_estimate_sound (x : BigNat) (hi : MantInv x) (hnz : ¬ (x.digits.le
     rw [e, pow_add]
     simp only [List.length_cons] at hup
     exact Nat.mul_lt_mul_of_pos_right hup (by positivity)
+
+/-! ### the digit table -/
+
+/-- ★ `digit_lookup[128]` (regenerated from the source) is the intended digit valuation: '0'..'9' ↦ 0..9,
+    'A'..'Z' and 'a'..'z' ↦ 10..35, everything else invalid (0xff). -/
+theorem digit_table_correct : ∀ c : Fin 128,
+    digitLookup.getD c.val 255 =
+      (if 48 ≤ c.val ∧ c.val ≤ 57 then c.val - 48
+       else if 65 ≤ c.val ∧ c.val ≤ 90 then c.val - 55
+       else if 97 ≤ c.val ∧ c.val ≤ 122 then c.val - 87
+       else 255) := by decide +kernel
 
 /-! ### 64-bit integer text -/
 
